@@ -74,12 +74,21 @@ func selftest(args []string) int {
 				if code != want {
 					msg = fmt.Sprintf("exit %d, want %d\n%s", code, want, tail(string(out), 12))
 				} else if want == 1 {
+					var gs []string
 					for _, l := range strings.Split(string(out), "\n") {
 						if strings.HasPrefix(l, "VIOLATION") {
-							msg = "ok: " + firstViolation(l, tmp)
-							break
+							g := firstViolation(l, tmp)
+							g = strings.TrimPrefix(g, "failed obligation group: ")
+							if i := strings.Index(g, " ("); i > 0 && strings.HasPrefix(g, "bounded") {
+								g = g[:i]
+							}
+							gs = append(gs, g)
 						}
 					}
+					if len(gs) > 4 {
+						gs = append(gs[:4], fmt.Sprintf("... %d more", len(gs)-4))
+					}
+					msg = "ok: " + strings.Join(gs, "; ")
 				} else {
 					msg = "ok"
 				}
